@@ -26,10 +26,10 @@ type sanityCase struct {
 	counters map[string]Counter
 }
 
-func lit(s string) Part  { return Part{Lit: s} }
-func vr(n string) Part   { return Part{Var: n} }
-func vb(n string) Part   { return Part{Var: n, Braces: true} }
-func ip(i int) *int      { return &i }
+func lit(s string) Part { return Part{Lit: s} }
+func vr(n string) Part  { return Part{Var: n} }
+func vb(n string) Part  { return Part{Var: n, Braces: true} }
+func ip(i int) *int     { return &i }
 func sl(n string, a, b *int) Part {
 	return Part{Var: n, HasSlice: true, Start: a, End: b}
 }
@@ -235,10 +235,10 @@ func sanityCases() []sanityCase {
 
 // sanityViolation is an implementation result that contradicts a literal unit-test vector the reference agrees with.
 type sanityViolation struct {
-	name string
-	prog *Program
-	rec  *Record
-	what string
+	name   string
+	prog   *Program
+	rec    *Record
+	what   string
 	schema []string
 }
 
